@@ -10,6 +10,7 @@ From GmsmVerif Require Import Lib.Outcome EC.ECAffine EC.SM2Curve SM3.SM3Spec
 From GmsmVerif Require Import SM2.SM2ParamsTie Gen.SM2Params Gen.SM2SigParams.
 From GmsmVerif Require Import SM2.SM2SignExtra.
 From GmsmVerif Require SM2.SM2GroupMin.   (* minimal-premise versions; used qualified *)
+From GmsmVerif Require SM2.SM2Unconditional.   (* associativity proved: SM2/ECAssoc.v *)
 Import ListNotations.
 Open Scope Z_scope.
 
@@ -301,6 +302,44 @@ Theorem C01_sign_invalid_key_panics :
     r <> 0 -> r + k <> sm2_n -> sign_loop (S fuel) d e rho = Panic.
 Proof. exact sign_loop_invalid_key. Qed.
 Print Assumptions C01_sign_invalid_key_panics.
+
+(* ---- 11. associativity is a theorem (SM2/ECAssocAbstract.v, SM2/ECAssoc.v: exhaustive case analysis, every
+   leaf closed by nsatz), so the completeness and accepting-key results need no premise about the group law
+   beyond the arithmetic facts: p prime, n prime, [n]G = O, [k]G finite for 0 < k < n ------------------------ *)
+Theorem C01_add_assoc_proved :
+  SM2GroupMin.P_prime -> forall P Q R : point,
+    sm2_valid P = true -> sm2_valid Q = true -> sm2_valid R = true ->
+    sm2_add (sm2_add P Q) R = sm2_add P (sm2_add Q R).
+Proof. exact SM2Unconditional.add_assoc_holds. Qed.
+Print Assumptions C01_add_assoc_proved.
+
+Theorem C01_verify_complete_noassoc :
+  SM2GroupMin.P_prime -> SM2GroupMin.G_order_divides_n -> SM2GroupMin.G_multiples_finite -> SM2GroupMin.N_prime ->
+  forall fuel d e rho r s rho',
+    1 <= d <= sm2_n - 2 ->
+    sign_loop fuel d e rho = Ok (r, s, rho') ->
+    verify_core (ScalarBaseMult d) e r s = true /\ 1 <= r < sm2_n /\ 1 <= s < sm2_n.
+Proof. intros Hp. exact (SM2GroupMin.sign_then_verify_core Hp (SM2Unconditional.add_assoc_holds Hp)). Qed.
+Print Assumptions C01_verify_complete_noassoc.
+
+Theorem C01_Sm2Sign_then_Sm2Verify_noassoc :
+  SM2GroupMin.P_prime -> SM2GroupMin.G_order_divides_n -> SM2GroupMin.G_multiples_finite -> SM2GroupMin.N_prime ->
+  forall fuel d msg uid rho r s rho',
+    1 <= d <= sm2_n - 2 ->
+    Sm2Sign fuel (key_of d) msg uid rho = Ok (r, s, rho') ->
+    Sm2Verify (ScalarBaseMult d) msg uid r s = true.
+Proof. intros Hp. exact (SM2GroupMin.Sm2Sign_then_Sm2Verify Hp (SM2Unconditional.add_assoc_holds Hp)). Qed.
+Print Assumptions C01_Sm2Sign_then_Sm2Verify_noassoc.
+
+Theorem C01_accepting_keys_characterised_noassoc :
+  SM2GroupMin.P_prime -> forall pub e r s,
+    sm2_valid (Some pub) = true ->
+    (verify_spec (Some pub) e r s <->
+     1 <= r < sm2_n /\ 1 <= s < sm2_n /\ (r + s) mod sm2_n <> 0 /\
+     exists R, sm2_valid R = true /\ x_of R mod sm2_n = (r - e) mod sm2_n /\
+               sm2_mul ((r + s) mod sm2_n) (Some pub) = sm2_add R (sm2_neg (sm2_base_mul s))).
+Proof. intros Hp. exact (SM2GroupMin.verify_spec_keys Hp (SM2Unconditional.add_assoc_holds Hp)). Qed.
+Print Assumptions C01_accepting_keys_characterised_noassoc.
 
 (* ---- non-vacuity: concrete instances, evaluated ----------------------------------------------------------- *)
 (* key d = 1, digest 5, a stream whose first attempt gives k = 2 *)
